@@ -126,6 +126,9 @@ def _case(draw, maxstages, maxdepth):
         if k <= 5:
             t = typed.any_type(cx, env, 2)
             body = typed.gen(cx, env, t, depth)
+            if cfg.helpers and t in (typed.I, typed.F) and draw(st.integers(0, 2)) == 0:
+                # a two-argument, non-commutative helper called positionally at the root of the body
+                body = f"hsub({body}, {typed.gen(cx, env, t, 0)})"
             stages.append({"id": sid, "parent": parent["id"], "op": "Select", "param": p, "body": body, "form": form})
             streams.append({"id": sid, "type": t})
         elif k <= 7:
